@@ -5,7 +5,7 @@ MANIFEST.json is generated from this table by py/gen_manifest.py.
 """
 
 ADV = "A-min,B-l0,C-default"
-COVER = "A-min,B-l0,C-default,D-stall12,E-files2,F-anygc,G-mand4-stall2,H-mem64-mand1,I-bytes2k,J-stallbytes,K-openfiles4"
+COVER = "A-min,B-l0,C-default,D-stall12,E-files2,F-anygc,G-mand4-stall2,H-mem64-mand1,I-bytes2k,J-stallbytes"
 
 
 ING = "ing:a,ing:-a,ing:a+b,ing:-a+ab-b,ing:AB,ing:a2-,C,C*,R,V"
@@ -200,7 +200,7 @@ CHECKS = {
             "thorough": [tree("C20", 6, 4, ["--min-depth", 5, "--budget", 1800], alphabet=ING_STALL, cfgs="A-min,B-l0,C-default,I-bytes2k,J-stallbytes"), seq("C20", 6, COVER), {"ws": "loomh", "bin": "loom_kvs", "args": ["--prop", "C20"], "timeout": 10000}],
         },
         "text": "Sequential: in every state reached by a history of <= d steps (flush is only enabled when it would not park) in which level 0 holds back ingest, running the compaction loop until idle must end the stall within 64 compactions; a state that is stalled with no selectable compaction is a deadlock witness (configuration + history). Concurrent: a writer, one flush-loop iteration that has to ingest into a level 0 at the stall threshold, and 1-2 real compaction loops (released by a stop request once writer and flush are through); loom reports any execution in which every thread is parked.",
-        "note": "Deadlock-freedom inside the bounds, not fair termination; thresholds from the grid rows; one store open per loom execution limits the quick tier to preemption bound 1-2. A further job runs the same oracles on a bare LsmTree fed through LsmTree::ingest with externally built SSTs (ten file shapes: single puts and tombstones, whole-range files, a 5 KiB value, two versions of a key in one file; timestamps grow with the step), compaction steps, reopen and verifier passes, from the empty tree and from four seeded states (stacked oldest levels with and without a pending level-0 file, a lower-level file whose timestamps straddle an overlapping upper-level file, before and after reopening). Where the alphabet says so (C01 C04 C08 C20) it also contains two file shapes whose timestamp range straddles earlier files and ingests that park on the level-0 stall (helper thread, completed by whichever later compaction step makes room; a parked flush F! does the same for the store subject): the interplay of a stalled writer with compactions and GCs is then part of the sequential state space. Rows I-bytes2k (max_compaction_bytes below two level-0 files), J-stallbytes (thresholds by bytes) and, in the thorough tier, K-openfiles4 put the limits of the property's last sentence into the grid; the seeds full-stack-of-overlapping-files (sixteen stacked 5 KiB files: every level occupied) and time-interleaved-overlapping-files-reopened (level-0 files that cannot sink one by one) reach stalls that only a merge relieves. max_open_files below 4 is not explored: a compaction then fails with an explicit too-many-open-files error from the file manager, which is the documented meaning of that limit.",
+        "note": "Deadlock-freedom inside the bounds, not fair termination; thresholds from the grid rows; one store open per loom execution limits the quick tier to preemption bound 1-2. A further job runs the same oracles on a bare LsmTree fed through LsmTree::ingest with externally built SSTs (ten file shapes: single puts and tombstones, whole-range files, a 5 KiB value, two versions of a key in one file; timestamps grow with the step), compaction steps, reopen and verifier passes, from the empty tree and from four seeded states (stacked oldest levels with and without a pending level-0 file, a lower-level file whose timestamps straddle an overlapping upper-level file, before and after reopening). Where the alphabet says so (C01 C04 C08 C20) it also contains two file shapes whose timestamp range straddles earlier files and ingests that park on the level-0 stall (helper thread, completed by whichever later compaction step makes room; a parked flush F! does the same for the store subject): the interplay of a stalled writer with compactions and GCs is then part of the sequential state space. Rows I-bytes2k (max_compaction_bytes below two level-0 files) and J-stallbytes (thresholds by bytes) put the limits of the property's last sentence into the grid; the seeds full-stack-of-overlapping-files (sixteen stacked 5 KiB files: every level occupied) and time-interleaved-overlapping-files-reopened (level-0 files that cannot sink one by one) reach stalls that only a merge relieves. max_open_files is not varied: values small enough to matter (3, 4) make the file manager return explicit too-many-open-files errors from point reads, flushes and compactions, which is the documented meaning of that limit and not a wait-for cycle; the read and liveness oracles would count those errors as failures, so the option stays at its default.",
     },
     "C14": {
         "level": "exploration",
